@@ -130,7 +130,28 @@ def flatten(t: Term, self_t: Term) -> List[Tuple[Tuple, List[Tuple]]]:
         return [((), [('s', sl[0], sl[1])])]
     if isinstance(t, Call) and isinstance(t.func, Ext) and t.func.name == 'str' and t.args:
         return flatten(t.args[0], self_t)
+    if isinstance(t, New) and _FLATTEN_EV:
+        # a node built on the spot and printed (str(HplLiteral('True', True))): its own printer on the known fields
+        ev = _FLATTEN_EV[-1]
+        ci = ev.m.classes.get(t.cls)
+        sfi = ci.resolve('__str__') if ci is not None else None
+        if sfi is not None and len(_FLATTEN_EV) < 4:
+            _FLATTEN_EV.append(ev)
+            try:
+                outs = ev.run(sfi, {'self': t}, self_cls=ci)
+                alts4 = []
+                for o in outs:
+                    if o.kind == 'return':
+                        for g, seq in flatten(o.value, t):
+                            alts4.append((tuple(o.guards) + g, seq))
+                if alts4:
+                    return alts4
+            finally:
+                _FLATTEN_EV.pop()
     return [((), [('s', '?', repr(t)[:60])])]
+
+
+_FLATTEN_EV: List = []
 
 
 def printer_alternatives(ctx: Ctx, c: ClassInfo, assume: Optional[Dict[Term, Term]] = None) -> Tuple[FunctionInfo, List[Tuple[Tuple, List[Tuple]]]]:
@@ -141,11 +162,15 @@ def printer_alternatives(ctx: Ctx, c: ClassInfo, assume: Optional[Dict[Term, Ter
     ev = Evaluator(ctx.model, assume=assume) if assume else ctx.ev
     outs = ev.run(fi, {'self': self_t}, self_cls=c)
     alts = []
-    for o in outs:
-        if o.kind != 'return':
-            continue
-        for g, seq in flatten(o.value, self_t):
-            alts.append((norm_guards(o.guards) + norm_guards(g), seq))
+    _FLATTEN_EV.append(ev)
+    try:
+        for o in outs:
+            if o.kind != 'return':
+                continue
+            for g, seq in flatten(o.value, self_t):
+                alts.append((norm_guards(o.guards) + norm_guards(g), seq))
+    finally:
+        _FLATTEN_EV.pop()
     return fi, alts
 
 
